@@ -126,9 +126,10 @@ def intentVal (env : Env) (host : Val) (v : Val) : Intent :=
 
 /-- the meaning of a datagram from `host` -/
 def intent (env : Env) (host : Val) (dgram : Bytes) : Intent :=
-  match load dgram with
-  | .error _ => .none
-  | .ok v => intentVal env host v
+  if env.loadOverflows dgram then .none
+  else match load dgram with
+    | .error _ => .none
+    | .ok v => intentVal env host v
 
 /-- everything the proofs need of one step: representation invariant kept, notifications exact,
 abstract view moved as the intent says -/
